@@ -64,6 +64,7 @@ KIND_COMPS = {"azel": ("az", "el"), "radar": ("az", "el", "rng", "rr"), "rngaz":
               "elrr": ("el", "rr"), "elaz": ("el", "az"), "rng": ("rng",), "az": ("az",)}
 DELTA_PLACE = 1.0e-6      # rad: sub-tick placement of the predicted azimuth next to a seam
 EPS_MEAS = {"az": 7.0e-4, "el": 5.0e-4, "rng": 0.05, "rr": 2.0e-4}   # measured - predicted
+FAR_RANGE = 6.5           # km: range innovation of an observation the spec marks rg = 1 (|.| > pi)
 
 
 def _types():
@@ -187,7 +188,7 @@ class Scene:
                 v = represent(base, rep["k"], rep["s"])
             elif comp == "rng":
                 types.append(Range())
-                v = float(Range().calculate(sen, self.centre, self.date)) - EPS_MEAS["rng"] * scale
+                v = float(Range().calculate(sen, self.centre, self.date)) - (FAR_RANGE if o.get("rg") else EPS_MEAS["rng"]) * scale
             else:
                 types.append(RangeRate())
                 v = float(RangeRate().calculate(sen, self.centre, self.date)) + EPS_MEAS["rr"] * scale
@@ -197,9 +198,12 @@ class Scene:
         return Observation(julian_date=self.jd, target_id=10001, sensor_id=sid, sensor_type="Radar",
                            sensor_eci=sen, measurement=meas, **vals)
 
-    def update(self, stack: list) -> dict:
-        """Run the REAL update() on a copy of the predicted filter; project the result."""
+    def update(self, stack: list, hist=()) -> dict:
+        """Run the REAL update() on a copy of the predicted filter; project the result.  With `hist`
+        the SAME filter instance first performs the updates of the earlier stacks (same prior)."""
         f = copy.deepcopy(self.filter)
+        for h in hist:
+            f.update([self.observation(o) for o in h])
         obs = [self.observation(o) for o in stack]
         f.update(obs)
         ids = [o["id"] for o in stack]
